@@ -13,7 +13,7 @@
    the parser is covered by the watchdog / oracle run of checks/c01.py only. *)
 From Coq Require Import List NArith ZArith.
 From Falco Require Import Base.Res Base.Bytes Base.Utf8 Gen.Tokens Model.Lex Model.Pump Model.LexSpec
-  Proofs.LexTables Proofs.LexProgress Proofs.LexToken Proofs.PumpTotal Proofs.LexView Proofs.LexLocated
+  Proofs.LexTables Proofs.LexProgress Proofs.LexToken Proofs.PumpTotal Proofs.LexView Proofs.LexLocated Proofs.LexExtra
   Proofs.LexTheorems Proofs.LexExamples.
 Import ListNotations.
 
@@ -57,6 +57,19 @@ Theorem C01_lex_located :
   forall s ts t, tokens s = OK ts -> In t ts -> designates (dec_all s) t.
 Proof. exact lex_located. Qed.
 
+(* A position designates at most one place: the prefix in [at_text] is unique. *)
+Theorem C01_position_unique :
+  forall rs pre1 suf1 pre2 suf2,
+  rs = pre1 ++ suf1 -> rs = pre2 ++ suf2 -> end_pos pre1 = end_pos pre2 -> pre1 = pre2.
+Proof. exact position_unique. Qed.
+
+(* The EOF token is stable: at the end of input (or on a NUL byte), with an empty queue, NextToken
+   returns an EOF token and a state from which it returns the same token again. *)
+Theorem C01_eof_stable :
+  forall n st, ch st = 0%N -> peeks st = [] -> 1 <= n -> wf st ->
+  exists e st1, next_token n st = OK (e, st1) /\ is_eof e = true /\ next_token n st1 = OK (e, st1).
+Proof. exact eof_stable. Qed.
+
 (* The parser's token pump: over ANY token list followed by a repeated EOF token, ReadPeek
    (LF / COMMENT / C! W! / pragma skipping) returns and the pump reaches EOF. *)
 Theorem C01_pump_total :
@@ -86,6 +99,8 @@ Print Assumptions C01_next_token_progress.
 Print Assumptions C01_lex_typed.
 Print Assumptions C01_lex_ends_with_eof.
 Print Assumptions C01_lex_located.
+Print Assumptions C01_position_unique.
+Print Assumptions C01_eof_stable.
 Print Assumptions C01_pump_total.
 Print Assumptions C01_pump_no_crash.
 Print Assumptions C01_pump_source_returns.
